@@ -31,6 +31,7 @@ def unit_files():
 def main():
     only = sys.argv[1:]
     uf, cfg = unit_files()
+    known = set(k["obligation"] for k in json.load(open(os.path.join(VERIF, "known_findings.json")))["findings"] if k.get("status") == "known")
     rows = []
     for sid in sorted(os.listdir(os.path.join(VERIF, "seeded"))):
         d = os.path.join(VERIF, "seeded", sid)
@@ -54,7 +55,8 @@ def main():
         fails, undec = [], []
         with concurrent.futures.ThreadPoolExecutor(max_workers=8) as ex:
             for u, st, failed in ex.map(one, units):
-                if st == "failed":
+                failed = [f for f in failed if f not in known]
+                if st == "failed" and failed:
                     fails += failed
                 elif st != "ok":
                     undec.append(u)
